@@ -42,6 +42,11 @@ orc_rule_set_new (OrcOpcodeSet *opcode_set, OrcTarget *target,
 {
   OrcRuleSet *rule_set;
 
+  if (target->n_rule_sets >= ORC_N_RULE_SETS) {
+    ORC_ERROR ("too many rule sets for target %s", target->name);
+    return NULL;
+  }
+
   rule_set = target->rule_sets + target->n_rule_sets;
   target->n_rule_sets++;
 
